@@ -26,6 +26,8 @@ def check(run):
     from . import C06 as _C06
     _C06.check_public_writes(run, rename={"R06.2": "R13.7", "R06.3": None})
     # the file a rotation publishes is the file that was being written: scratch name = final name + .part (R15.1/R15.2 imported)
+    from .. import derived as _derived
+    _derived.report(run, "R13.9", ["CDNS::Writer<std::basic_string<char>>", "CDNS::Writer<int>", "CDNS::CdnsEncoder", "CDNS::CborOutputWriter", "CDNS::GzipCborOutputWriter", "CDNS::XzCborOutputWriter", "CDNS::CdnsExporter"])
     from . import C15 as _C15
     _C15.check_names(_C06._Renamed(run, {"R15.1": "R13.8", "R15.2": "R13.8"}), "R15.1", "R15.2", only_names=True)
     facts = run.facts
